@@ -258,7 +258,7 @@ pub fn run_c05(cfg: &Cfg) {
                     }
                 };
                 if subset & 1 != 0 {
-                    msg.dynheader.response_serial = NonZeroU32::new(*rng.pick(&[1u32, 2, 0x7fffffff, u32::MAX, 77]));
+                    msg.dynheader.response_serial = NonZeroU32::new(*rng.pick(&[1u32, 2, 0x7fffffff, u32::MAX, 77, 256, 0x1234, 0x01020304, 70000, 0x80a1b2c3]));
                 }
                 if subset & 2 != 0 {
                     msg.dynheader.interface = Some(pick(&mut rng, IFACES));
@@ -622,7 +622,7 @@ pub fn run_c06(cfg: &Cfg) {
                 2 => (Ty::Base('s'), s(mostly_valid(rng, "iface", IFACES))),
                 3 => (Ty::Base('s'), s(mostly_valid(rng, "member", MEMBERS))),
                 4 => (Ty::Base('s'), s(mostly_valid(rng, "errname", ERRS))),
-                5 => (Ty::Base('u'), Val::Num(*rng.pick(&[1u64, 7, 9, 0xffffffff, 1, 2, 3, 0]))),
+                5 => (Ty::Base('u'), Val::Num(*rng.pick(&[1u64, 7, 9, 0xffffffff, 1, 2, 3, 0, 256, 0x01020304, 0x80a1b2c3]))),
                 6 | 7 => (Ty::Base('s'), s(mostly_valid(rng, "bus", BUSES))),
                 8 => (Ty::Base('g'), s(*rng.pick(&["", "s", "a{sv}", "(ii)u"]))),
                 9 => (Ty::Base('u'), Val::Num(rng.below(3))),
